@@ -230,6 +230,7 @@ fn main() {
         }
         for i in 0..n_cases {
             let cfg = GenCfg { max_keys: if i % 4 == 0 { 6 } else { 12 }, max_ops: 10, firewalls: mode != "core" , externals: mode != "cyclic" && i % 3 == 0, unordered: mode == "acyclic" && i % 5 == 0, cycles: mode == "cyclic" };
+            if mode == "pjchain" { cases.push(gen_pjchain(&mut rng)); continue; }
             if mode == "acyclic" && i % 6 == 5 { cases.push(gen_layered(&mut rng)); continue; }
             if mode == "acyclic" && i % 12 == 4 { cases.push(gen_pjswitch(&mut rng)); continue; }
             let p = gen_program(&mut rng, &cfg);
